@@ -23,7 +23,7 @@ import os
 import re
 import sys
 
-GEN_VERSION = 2
+GEN_VERSION = 3
 
 MASK = (1 << 64) - 1
 
@@ -828,9 +828,14 @@ class Prog:
         self.emit(v.like(deps=frozenset()), '%s.defer_tick()' % self.use(v), 'defer_tick')
 
     def op_send(self, v):
+        created = False
         if self.nprocs < 3 and (self.nprocs == 1 or self.rng.chance(1, 4)):
             self.nprocs += 1
+            created = True
         dst = self.rng.choose([p for p in range(self.nprocs) if p != v.loc[0]])
+        if created:
+            # a process that is declared but never receives anything gets no generated function at all
+            dst = self.nprocs - 1
         ch = 'ch%d' % len(self.channels)
         self.channels.append((ch, v.loc[0], dst))
         if self.rng.chance(3, 4):
@@ -1201,8 +1206,69 @@ use crate::{{P0, P1, P2}};
 """
 
 
-def generate(seed, n):
-    return [describe(gen_program(i, seed)) for i in range(n)]
+# --------------------------------------------------------------------------------------------------
+# fixed hand-written corpus: minimal well-typed programs for defects the random programs ran into; they
+# are part of every run so that these defects are reported (or matched as known findings) deterministically.
+
+def _probe(idx, label, inputs, lines, outs, ops):
+    p = Prog(idx, Rng(idx), 'safe', 0)
+    for t in inputs:
+        p.add_input(0, t)
+    p.lines = list(lines)
+    p.ops = list(ops)
+    p.outputs = []
+    for (name, var) in outs:
+        var.name = name
+        var.inp = True
+        p.hist[name] = set(ops)
+        p.outputs.append(var)
+    d = describe(p)
+    d['probe'] = label
+    return d
+
+
+def probe_descs():
+    S = lambda t, b=UNB, o=TOTAL, r=EXACT: Var('S', (0, None), t=t, bound=b, order=o, retry=r)
+    SG = lambda t, b=UNB: Var('Sg', (0, None), t=t, bound=b)
+    KSG = lambda b: Var('KSg', (0, None), k=I64, v=I64, bound=b)
+    red = 'q!(|a: &mut i64, x: i64| { *a = a.wrapping_add(x); })'
+    return [
+        _probe(9000, 'partition-one-side-dropped', [I64],
+               ['let (a, _b) = in0.partition(q!(|x: &i64| *x > 0i64));'], [('a', S(I64))], ['partition', 'probe', 'corpus']),
+        _probe(9001, 'keyed-reduce-on-top-level-bounded', [I64],
+               ['let k = p0.source_iter(q!(vec![(1i64, 2i64), (1i64, 3i64)])).into_keyed().reduce(%s);' % red,
+                'let o = in0.map(q!(|x: i64| x));'], [('o', S(I64)), ('k', KSG('Bounded'))],
+               ['keyed_reduce_sum', 'source_iter', 'into_keyed', 'map']),
+        _probe(9002, 'keyed-fold-on-top-level-bounded', [I64],
+               ['let k = p0.source_iter(q!(vec![(1i64, 2i64), (1i64, 3i64)])).into_keyed().fold(q!(|| 0i64), %s);' % red,
+                'let o = in0.map(q!(|x: i64| x));'], [('o', S(I64)), ('k', KSG('Bounded'))],
+               ['keyed_fold_sum', 'source_iter', 'into_keyed', 'map']),
+        _probe(9003, 'key_count-on-unbounded-keyed-singleton', [PAIR],
+               ['let c = in0.into_keyed().reduce(q!(|a: &mut i64, x: i64| { *a = x; })).key_count();'],
+               [('c', SG(USZ))], ['keyed_reduce_last', 'key_count', 'into_keyed']),
+        _probe(9004, 'key_count-on-monotonic-value-keyed-singleton', [PAIR],
+               ['let c = in0.into_keyed().value_counts().key_count();'],
+               [('c', SG(USZ))], ['value_counts', 'key_count', 'into_keyed']),
+        _probe(9005, 'into_singleton-on-monotonic-value-keyed-singleton', [PAIR],
+               ['let c = in0.into_keyed().value_counts().into_singleton().map(q!(|m: std::collections::HashMap<i64, usize>| m.len()));'],
+               [('c', SG(USZ))], ['value_counts', 'keyed_singleton_into_singleton', 'into_keyed', 'singleton_map']),
+        _probe(9006, 'filter_not_in-unbounded-with-bounded', [I64],
+               ['let o = in0.filter_not_in(p0.source_iter(q!(vec![1i64, 3i64])));'], [('o', S(I64))],
+               ['filter_not_in', 'source_iter', 'probe']),
+        _probe(9007, 'cross_product-bounded-left-unbounded-right-typed-bounded', [I64, I64],
+               ["let fake: Stream<(i64, i64), Process<'a, P0>, Bounded, NoOrder, ExactlyOnce> = "
+                "p0.source_iter(q!(vec![0i64])).cross_product(in1);",
+                'let o = in0.cross_product(fake);'], [('o', S(T2(I64, PAIR)))],
+               ['cross_product_bounded_left_unbounded_right', 'cross_product_bounded_right', 'source_iter']),
+    ]
+
+
+def generate(seed, n, probes=True):
+    """n random programs + (in the first batch) the fixed corpus"""
+    out = [describe(gen_program(i, seed)) for i in range(n)]
+    for d in out:
+        d['probe'] = None
+    return (probe_descs() + out) if probes else out
 
 
 def render_files(descs, seed, n):
